@@ -24,9 +24,11 @@ EXPLANATION = ('Theorems in props/C17.v (axis neighbour characterisation, coordi
 def axes_forms(rng, per):
     idx = [i for i, b in enumerate(per) if b]
     nd = len(per)
-    forms = [idx, tuple(idx), np.array(idx), [i - nd for i in idx]]
+    forms = [idx, tuple(idx), np.array(idx), [i - nd for i in idx], [np.int64(i) for i in idx]]
     if len(idx) == 1:
-        forms += [idx[0], idx[0] - nd]
+        forms += [idx[0], idx[0] - nd, np.int64(idx[0]), np.int32(idx[0] - nd), np.array(idx[0])]
+    if not idx:
+        forms = [[], (), np.array([], dtype=int)]       # the empty subset of axes
     return forms
 
 
@@ -38,8 +40,6 @@ def explore(ctx):
     for shape in ([4], [2, 3], [3, 1, 4], [2, 2, 3], [1, 3, 2, 2], [5, 2]):
         nd = len(shape)
         for per in itertools.product([False, True], repeat=nd):
-            if not any(per):
-                continue
             ref = [sorted(r) for r in oracles.grid_neighbours(shape, list(per))]
             for form in axes_forms(rng, per):
                 case = {'shape': shape, 'adj': ['grid', list(per)]}
